@@ -52,13 +52,16 @@ func (ck *Checker) shrink(orig *Scenario, v Violation, budget int) (*Scenario, i
 		}
 		return ok
 	}
+	// over: the budget is spent; every loop below checks it so that no further candidate is even built
+	// (cloning a 70 000-call marathon per candidate once kept the coordinator busy for an hour)
+	over := func() bool { return evals >= budget || time.Now().After(deadline) }
 	// confirm it reproduces at all (determinism): otherwise return the original
 	if !try(cloneScenario(cur)) {
 		return orig, evals
 	}
 
 	// 1. drop whole segments (restarts)
-	for i := len(cur.Segments) - 1; i >= 0 && len(cur.Segments) > 1; i-- {
+	for i := len(cur.Segments) - 1; i >= 0 && len(cur.Segments) > 1 && !over(); i-- {
 		c := cloneScenario(cur)
 		c.Segments = append(c.Segments[:i], c.Segments[i+1:]...)
 		try(c)
@@ -70,7 +73,7 @@ func (ck *Checker) shrink(orig *Scenario, v Violation, budget int) (*Scenario, i
 			c.Segments[si].Shared = nil
 			try(c)
 		}
-		for pi := len(cur.Segments[si].Phases) - 1; pi >= 0 && len(cur.Segments[si].Phases) > 1; pi-- {
+		for pi := len(cur.Segments[si].Phases) - 1; pi >= 0 && len(cur.Segments[si].Phases) > 1 && !over(); pi-- {
 			c := cloneScenario(cur)
 			s := &c.Segments[si]
 			s.Phases = append(s.Phases[:pi], s.Phases[pi+1:]...)
@@ -79,7 +82,7 @@ func (ck *Checker) shrink(orig *Scenario, v Violation, budget int) (*Scenario, i
 		for pi := 0; pi < len(cur.Segments[si].Phases); pi++ {
 			// workers: halves, then singles
 			for chunk := len(cur.Segments[si].Phases[pi]) / 2; chunk >= 1; chunk /= 2 {
-				for at := 0; at+chunk <= len(cur.Segments[si].Phases[pi]) && len(cur.Segments[si].Phases[pi]) > chunk; {
+				for at := 0; at+chunk <= len(cur.Segments[si].Phases[pi]) && len(cur.Segments[si].Phases[pi]) > chunk && !over(); {
 					c := cloneScenario(cur)
 					ph := c.Segments[si].Phases[pi]
 					c.Segments[si].Phases[pi] = append(ph[:at:at], ph[at+chunk:]...)
@@ -90,7 +93,7 @@ func (ck *Checker) shrink(orig *Scenario, v Violation, budget int) (*Scenario, i
 			}
 			for wi := 0; wi < len(cur.Segments[si].Phases[pi]); wi++ {
 				for chunk := (len(cur.Segments[si].Phases[pi][wi]) + 1) / 2; chunk >= 1; chunk /= 2 {
-					for at := 0; at+chunk <= len(cur.Segments[si].Phases[pi][wi]) && len(cur.Segments[si].Phases[pi][wi]) > chunk; {
+					for at := 0; at+chunk <= len(cur.Segments[si].Phases[pi][wi]) && len(cur.Segments[si].Phases[pi][wi]) > chunk && !over(); {
 						c := cloneScenario(cur)
 						pr := c.Segments[si].Phases[pi][wi]
 						c.Segments[si].Phases[pi][wi] = append(pr[:at:at], pr[at+chunk:]...)
@@ -158,12 +161,15 @@ func (ck *Checker) shrink(orig *Scenario, v Violation, budget int) (*Scenario, i
 		for pi := range cur.Segments[si].Phases {
 			for wi := range cur.Segments[si].Phases[pi] {
 				for ci := range cur.Segments[si].Phases[pi][wi] {
+					if over() {
+						break
+					}
 					call := &cur.Segments[si].Phases[pi][wi][ci]
 					if call.Fn == "bitlist" {
 						for chunk := (len(call.Ops) + 1) / 2; chunk >= 1; chunk /= 2 {
 							for at := 0; ; {
 								cc := &cur.Segments[si].Phases[pi][wi][ci]
-								if at+chunk > len(cc.Ops) || len(cc.Ops) <= chunk {
+								if at+chunk > len(cc.Ops) || len(cc.Ops) <= chunk || over() {
 									break
 								}
 								c := cloneScenario(cur)
@@ -179,7 +185,7 @@ func (ck *Checker) shrink(orig *Scenario, v Violation, budget int) (*Scenario, i
 						}
 						continue
 					}
-					for len(cur.Segments[si].Phases[pi][wi][ci].B) > 1 {
+					for len(cur.Segments[si].Phases[pi][wi][ci].B) > 1 && !over() {
 						c := cloneScenario(cur)
 						cc := &c.Segments[si].Phases[pi][wi][ci]
 						cc.B = cc.B[:len(cc.B)/2]
